@@ -405,6 +405,63 @@ class Lane:
                     self.v("same-content-two-ids:Transaction-" + name,
                            "a node decoding the bytes of the transaction obtained by route '%s' knows it under another id" % name, w)
 
+    def lane_e_workload(self, n):
+        """the id invariant (hooked on every hash() call) along a node-like workload: blocks assembled by the repository's
+        own block assembly and by the reference, full validation, a file-backed store written and read back, a chain state
+        rebuilt from it, wallet spends built and signed at the head, block and transaction objects decoded from bytes"""
+        import os
+        import skepticoin.datatypes as dt
+        import skepticoin.wallet as wm
+        import skepticoin.signing as sg
+        from skepticoin.blockstore import BlockStore
+        from skv import gen, nodekit, idhook
+        env.boot()          # (stand-in scrypt, horizon off: generated low chains get full validation)
+        rng = self.rng
+        for k in range(n):
+            before = idhook.STATE["evaluations"]
+            world = gen.World(rng)
+            world.grow(rng.choice([6, 10, 14]), rng, tx_prob=0.7)
+            order = world.chain.order[1:]
+            path = os.path.join(os.getcwd(), "c07-e.db")
+            for suffix in ("", "-journal"):
+                if os.path.exists(path + suffix):
+                    os.remove(path + suffix)
+            store = nodekit.quiet(BlockStore, path)
+            try:
+                store.write_blocks_to_disk([world.real[b] for b in order])
+            except Exception:
+                pass            # (the shared-transaction mechanism of C08 is not this lane's subject)
+            store.close()
+            store = nodekit.quiet(BlockStore, path)
+            cs = world.CoinState.zero()
+            for blk in store.read_blocks_from_disk():
+                blk.hash()
+                for t in blk.transactions:
+                    t.hash()
+                try:
+                    if blk.height > 0:
+                        cs = cs.add_block_no_validation(blk)
+                except Exception:
+                    pass
+            store.close()
+            os.remove(path)
+            for b in order:
+                d = dt.Block.deserialize(world.real[b].serialize())
+                d.hash()
+                [t.hash() for t in d.transactions]
+            wallet = wm.Wallet(dict((pk, sk) for sk, pk in world.keys), [], {})
+            for _ in range(3):
+                try:
+                    t = wm.create_spend_transaction(wallet, world.cs, rng.randrange(1, 10 ** 9), rng.choice([0, 1, 5]),
+                                                    sg.SECP256k1PublicKey(rng.choice(world.keys)[1]),
+                                                    sg.SECP256k1PublicKey(rng.choice(world.keys)[1]))
+                    t.hash()
+                    dt.Transaction.deserialize(t.serialize()).signable_equivalent().hash()
+                except Exception:
+                    pass
+            self.c["E_workloads"] = self.c.get("E_workloads", 0) + 1
+            self.c["E_id_requests_observed"] = self.c.get("E_id_requests_observed", 0) + idhook.STATE["evaluations"] - before
+
     def result(self):
         from skv import idhook
         idhook.report(self.v, self.c)
@@ -465,6 +522,7 @@ def run_shard(spec):
     lane.lane_c_store(40 if quick else 600)
     lane.lane_long_lists(2 if quick else 40)
     lane.lane_d_derived(25 if quick else 400)
+    lane.lane_e_workload(2 if quick else 40)
     return lane.result()
 
 
@@ -483,6 +541,7 @@ def finalize(m, tier):
                    ("textbook-minimal list prefixes offered", c.get("B_minimal_list_prefix", 0), 40),
                    ("ids checked", c.get("C_ids_checked", 0), 5000),
                    ("ids from store", c.get("C_ids_from_store", 0), 100), ("ids of derived objects", c.get("D_ids_checked", 0), 1000),
+                   ("id requests observed along node-like workloads", c.get("E_id_requests_observed", 0), 5000),
                    ("id_invariant_evaluations", c.get("id_invariant_evaluations", 0), 5000), ("long_lists", c.get("long_lists", 0), 20),
                    ("count-altered strings", c.get("B_by_mutation", {}).get("count-altered", 0), 60)],
         "extra": {},
